@@ -34,6 +34,7 @@ EncOK(e) ==
   /\ AllTokOK(e.toks)
   /\ Len(e.toks) >= 1 /\ e.toks[1].t = "delim" /\ e.toks[1].tag = 1
   /\ LET r == Reading(AbsToks(e.toks)) IN r.ok /\ NormMsg(r.v) = NormMsg(e.msg.groups)
+  /\ (IF "fixed" \in DOMAIN e THEN (e.fixed => e.ref_eq) ELSE TRUE)   \* octets identical to the reference encoding where the RFC fixes them
 
 ParseOK(e) ==
   LET ts == AbsToks(e.toks)  r == Reading(ts) IN
